@@ -40,6 +40,9 @@ pub fn install_panic_hook() {
         let loc = info.location().map(|l| format!("{}:{}", l.file(), l.line())).unwrap_or_default();
         let th = std::thread::current().name().unwrap_or("<unnamed>").to_string();
         if let Ok(mut p) = PANICS.lock() {
+            if p.len() < 5 {
+                eprintln!("vh: panic in thread {}: {} at {}", th, msg, loc);
+            }
             if p.len() < 1000 {
                 p.push(PanicRec { thread: th, message: msg, location: loc, t_ns: now_ns() });
             }
@@ -49,6 +52,10 @@ pub fn install_panic_hook() {
 
 pub fn panics_take() -> Vec<PanicRec> {
     std::mem::take(&mut *PANICS.lock().unwrap())
+}
+
+pub fn panics_peek() -> Vec<PanicRec> {
+    PANICS.lock().unwrap().clone()
 }
 
 pub fn panics_count() -> usize {
@@ -346,9 +353,24 @@ pub fn default_handler(rq: Request) {
         CTL_SERVED.fetch_add(1, Ordering::Relaxed);
         let _ = rq.respond(Response::from_string("ctl"));
     } else {
+        // never on the dispatcher thread: answering/dropping a request of an abandoned
+        // conversation is a library call that (on a defective tree) may not return
         STRAY.fetch_add(1, Ordering::Relaxed);
-        let _ = rq.respond(Response::from_string("stray").with_status_code(299));
+        let url = rq.url().chars().take(80).collect::<String>();
+        let id = STRAY.load(Ordering::Relaxed);
+        STRAYS_OPEN.lock().unwrap().push((id, url, Instant::now()));
+        spawn_named("stray", move || {
+            let _ = rq.respond(Response::from_string("stray").with_status_code(299));
+            STRAYS_OPEN.lock().unwrap().retain(|s| s.0 != id);
+        });
     }
+}
+
+static STRAYS_OPEN: Mutex<Vec<(u64, String, Instant)>> = Mutex::new(Vec::new());
+
+/// Requests of abandoned conversations whose answering has not returned for longer than `age`.
+pub fn strays_stuck(age: Duration) -> Vec<String> {
+    STRAYS_OPEN.lock().unwrap().iter().filter(|s| s.2.elapsed() > age).map(|s| s.1.clone()).collect()
 }
 
 impl Env {
